@@ -600,6 +600,7 @@ fn cmd_sweep(a: &Args) {
                 expect: refs.get(&cat.sources[i].id).cloned().unwrap_or_else(|| "?".into()),
             })
             .collect();
+        // odd permutations also vary the order of the first walk of each result
         let ops: Vec<sim::Op> = (0..sources.len())
             .map(|k| {
                 sim::Op::Lex(sim::LexOp {
@@ -609,6 +610,7 @@ fn cmd_sweep(a: &Args) {
                     shrink_at: vec![],
                     crash: None,
                     keep: false,
+                    walk: if perm % 2 == 1 { rng.below(4) as u8 } else { 0 },
                 })
             })
             .collect();
